@@ -5,9 +5,10 @@
    the payload holds is an error (io.ReadFull semantics).  Where the real reader deviates from that
    on malformed input (reader.Read zero-padding, C03's findings) is C03's subject; on the encoder's own
    output - the only inputs C04 and C07 decode - both agree, except for the two cases modelled
-   explicitly below: the one-byte "extended short" of 1.7 arrays ([PBytes17], faithful to the code;
-   [PBytes17V] is the vanilla format) and an empty byte array at the very end of a payload
-   (judged in Check/C04.v).
+   that used to be modelled explicitly and are repaired in the code now (fix commits 6e760d1, 4d8a5a4):
+   1.7 arrays carry the two-byte "extended short" ([PBytes17] = today's code = the vanilla / Forge format;
+   [PBytes17Old] keeps the PRE-FIX one-byte form for the lemmas about the old code), and an empty byte
+   array at the very end of a payload is read like any other.
 
    Independent of Model/Prim.v (C03) on purpose: that file is being written concurrently; only
    Base/VarInt.v is shared. *)
@@ -25,9 +26,9 @@ Inductive lprim :=
 | PBytes (max : Z)             (* WriteBytes / ReadBytesLen(max) *)
 | PUUID                        (* WriteUUID / ReadUUID, also WriteUUID / ReadUUIDIntArray (same 16 bytes) *)
 | PFixed (n : nat)             (* exactly n raw bytes (message signatures: 256, last-seen bitset: 3) *)
-| PBytes17                     (* WriteBytes17 / ReadBytes17 as implemented: ONE length byte (+ optional high byte); the allowExtended
-                                  argument only changes which lengths the writer refuses (not modelled: refused values never reach a decoder) *)
-| PBytes17V                    (* vanilla 1.7 array: two-byte short (Forge: third byte when bit 15 set) *)
+| PBytes17                     (* WriteBytes17 / ReadBytes17: two-byte short length (Forge: third byte when bit 15 is set); the allowExtended
+                                  argument only changes which lengths the writer refuses (refused values never reach a decoder) *)
+| PBytes17Old                  (* PRE-FIX (before 6e760d1) WriteBytes17 / ReadBytes17: ONE length byte - kept for the lemmas about the old code *)
 | PUUIDStr (dashed : bool)     (* ServerLoginSuccess < 1.16: WriteString(uuid.String() / Undashed()), uuid.Parse(ReadStringMax(36/32)) *)
 | PKey                         (* WriteKey / ReadKey: validated "namespace:value" string; atom = the key's String() *)
 | PNbt.                        (* util.WriteBinaryTag / ReadBinaryTag for protocol >= 1.20.2: one NAMELESS NBT tag (type byte + payload);
@@ -43,7 +44,7 @@ Definition lprim_eqb (a b : lprim) : bool :=
   | PUUID, PUUID => true
   | PFixed n, PFixed m => Nat.eqb n m
   | PBytes17, PBytes17 => true
-  | PBytes17V, PBytes17V => true
+  | PBytes17Old, PBytes17Old => true
   | PUUIDStr d, PUUIDStr d' => Bool.eqb d d'
   | PKey, PKey => true
   | PNbt, PNbt => true
@@ -92,22 +93,23 @@ Definition claimed_len (limit : Z) (bs : bytes) : N :=
 
 (* ----- 1.7 arrays ----- *)
 Definition forge_max : Z := 2097050.                (* ForgeMaxArrayLength = math.MaxInt32 & 0x1FFF9A *)
-(* WriteExtendedForgeShort as implemented: WriteInt8(int8(low)) - one byte *)
-Definition impl_enc_fshort (n : Z) : bytes :=
+(* PRE-FIX WriteExtendedForgeShort: WriteInt8(int8(low)) - one byte *)
+Definition old_enc_fshort (n : Z) : bytes :=
   let low := Z.land n 32767 in
   let high := Z.shiftr (Z.land n 8355840) 15 in
   let low' := if high =? 0 then low else Z.lor low 32768 in
   [Z.to_N (low' mod 256)] ++ (if high =? 0 then [] else [Z.to_N (high mod 256)]).
-(* ReadExtendedForgeShort as implemented: one byte; "low & 0x8000" can never be set *)
-Definition impl_dec_fshort (bs : bytes) : res (Z * bytes) :=
+(* PRE-FIX ReadExtendedForgeShort: one byte; "low & 0x8000" could never be set *)
+Definition old_dec_fshort (bs : bytes) : res (Z * bytes) :=
   match bs with [] => Err EShort | b :: rest => Ok (Z.of_N b, rest) end.
-(* vanilla / Velocity: writeShort(low) [+ writeByte(high)] *)
-Definition van_enc_fshort (n : Z) : bytes :=
+(* WriteExtendedForgeShort (= vanilla / Velocity): WriteUint16(low) [+ byte(high)] *)
+Definition enc_fshort (n : Z) : bytes :=
   let low := Z.land n 32767 in
   let high := Z.shiftr (Z.land n 8355840) 15 in
   let low' := if high =? 0 then low else Z.lor low 32768 in
   be_enc 2 (Z.to_N low') ++ (if high =? 0 then [] else [Z.to_N (high mod 256)]).
-Definition van_dec_fshort (bs : bytes) : res (Z * bytes) :=
+(* ReadExtendedForgeShort *)
+Definition dec_fshort (bs : bytes) : res (Z * bytes) :=
   match take_n 2 bs with
   | Err e => Err e
   | Ok (b2, rest) =>
@@ -278,9 +280,9 @@ Definition lp_enc (p : lprim) (a : atom) : res bytes :=
   | PUUID, ABytes u => if Nat.eqb (length u) 16 then Ok u else Err EDomain
   | PFixed n, ABytes s => if Nat.eqb (length s) n then Ok s else Err EDomain
   | PBytes17, ABytes s =>
-      if forge_max <? lenZ s then Err EDomain else Ok (impl_enc_fshort (lenZ s) ++ s)
-  | PBytes17V, ABytes s =>
-      if forge_max <? lenZ s then Err EDomain else Ok (van_enc_fshort (lenZ s) ++ s)
+      if forge_max <? lenZ s then Err EDomain else Ok (enc_fshort (lenZ s) ++ s)
+  | PBytes17Old, ABytes s =>
+      if forge_max <? lenZ s then Err EDomain else Ok (old_enc_fshort (lenZ s) ++ s)
   | PUUIDStr d, ABytes u =>
       if Nat.eqb (length u) 16 then let t := uuid_text d u in Ok (enc_varint (lenZ t) ++ t) else Err EDomain
   | PKey, ABytes s =>
@@ -306,16 +308,16 @@ Definition lp_dec (p : lprim) (bs : bytes) : res (atom * bytes) :=
   | PUUID => match take_n 16 bs with Ok (u, r) => Ok (ABytes u, r) | Err e => Err e end
   | PFixed n => match take_n n bs with Ok (s, r) => Ok (ABytes s, r) | Err e => Err e end
   | PBytes17 =>
-      match impl_dec_fshort bs with
-      | Err e => Err e
-      | Ok (n, rest) => match take_n (Z.to_nat n) rest with Ok (s, r) => Ok (ABytes s, r) | Err e => Err e end
-      end
-  | PBytes17V =>
-      match van_dec_fshort bs with
+      match dec_fshort bs with
       | Err e => Err e
       | Ok (n, rest) =>
           if forge_max <? n then Err ETooLong
           else match take_n (Z.to_nat n) rest with Ok (s, r) => Ok (ABytes s, r) | Err e => Err e end
+      end
+  | PBytes17Old =>
+      match old_dec_fshort bs with
+      | Err e => Err e
+      | Ok (n, rest) => match take_n (Z.to_nat n) rest with Ok (s, r) => Ok (ABytes s, r) | Err e => Err e end
       end
   | PUUIDStr d =>
       match dec_lenpref (4 * (if d then 36 else 32)) bs with
@@ -341,8 +343,8 @@ Definition lp_alloc (p : lprim) (bs : bytes) : N :=
   | PBytes max => claimed_len max bs
   | PUUID => 16
   | PFixed n => N.of_nat n
-  | PBytes17 => match bs with b :: _ => N.min b 255 | [] => 0 end
-  | PBytes17V => match van_dec_fshort bs with Ok (n, _) => if (forge_max <? n)%Z then 0 else Z.to_N n | Err _ => 0 end
+  | PBytes17Old => match bs with b :: _ => N.min b 255 | [] => 0 end
+  | PBytes17 => match dec_fshort bs with Ok (n, _) => if (forge_max <? n)%Z then 0 else Z.to_N n | Err _ => 0 end
   | PUUIDStr d => (2 * claimed_len (4 * (if d then 36 else 32))%Z bs + 16)%N
   | PKey => (4 * claimed_len (4 * default_max)%Z bs)%N
   | PNbt => match nbt_rest bs with Some r => lenN bs - lenN r | None => lenN bs end
@@ -355,8 +357,8 @@ Definition lp_cap (p : lprim) : N :=
   | PBytes max => Z.to_N max
   | PUUID => 16
   | PFixed n => N.of_nat n
-  | PBytes17 => 255
-  | PBytes17V => Z.to_N forge_max
+  | PBytes17Old => 255
+  | PBytes17 => Z.to_N forge_max
   | PUUIDStr _ => 304
   | PKey => Z.to_N (16 * default_max)%Z
   | _ => 0
@@ -367,7 +369,7 @@ Definition lp_min (p : lprim) : N :=
   | PInt w _ => N.of_nat w
   | PUUID => 16
   | PFixed n => N.of_nat n
-  | PBytes17V => 2
+  | PBytes17 => 2
   | _ => 1
   end%N.
 
@@ -392,8 +394,8 @@ Definition lp_domb (p : lprim) (a : atom) : bool :=
   | PBytes max, ABytes s => wf_bytesb s && (lenZ s <=? max) && (lenZ s <? 2 ^ 31)
   | PUUID, ABytes u => wf_bytesb u && Nat.eqb (length u) 16
   | PFixed n, ABytes s => wf_bytesb s && Nat.eqb (length s) n
-  | PBytes17, ABytes s => wf_bytesb s && (lenZ s <? 256)
-  | PBytes17V, ABytes s => wf_bytesb s && (lenZ s <? 256)        (* small arrays only: no theorem is claimed for 1.7 contexts (C07-2), the primitive is run by the judges *)
+  | PBytes17, ABytes s => wf_bytesb s && (lenZ s <? 32768)       (* vanilla lengths; Forge's three-byte form is outside the theorem *)
+  | PBytes17Old, ABytes s => wf_bytesb s && (lenZ s <? 256)
   | PUUIDStr _, ABytes u => wf_bytesb u && Nat.eqb (length u) 16
   | PKey, ABytes s =>
       wf_bytesb s && valid_key (canon_key s) && beq_bytes (key_string (canon_key s)) s && (lenZ s <=? 4 * default_max)
